@@ -17,7 +17,7 @@ EXTENDS Naturals, Sequences, FiniteSets, TLC, Json
 CONSTANTS Opens,       \* OPEN classes offered by the peer (subset of DOMAIN OpenDef)
           Updates,     \* UPDATE classes (subset of DOMAIN UpdDef)
           Garbage,     \* malformed-header classes (subset of DOMAIN HdrDef)
-          Stops,       \* administrative / timer events used: subset of {"ManualStop", "HoldExpires", "WriteFails"} \cup DOMAIN NotifDef
+          Stops,       \* administrative / timer events used: subset of {"ManualStop", "HoldExpires", "WriteFails", "Wait"} \cup DOMAIN NotifDef
           LocalCfg,    \* name of the local peer configuration (DOMAIN CfgDef)
           Pols,        \* policies the operator may put in place through the server ({} = none): subset of {"accept", "reject"}
           Origs,       \* prefixes another source may put into the Loc-RIB ({} = none): subset of {"o1", "o2"}
@@ -222,6 +222,13 @@ WriteFails ==
     /\ ToIdle(<<>>)
     /\ Log([a |-> "WriteFails"])
 
+(* a few seconds pass without any event: nothing happens (RFC 4271 8.2.2: in OpenSent the hold timer runs with a large value;  *)
+(* afterwards with the negotiated one, and the keepalive interval of the configurations used here is 30 s or off)                *)
+Wait ==
+    /\ st \in {"OpenSent", "OpenConfirm", "Established"} /\ (st # "OpenSent" => (hold = 0 \/ hold >= 30))
+    /\ UNCHANGED <<st, conn, attached, adjIn, out, hold, nsess>>
+    /\ Log([a |-> "Wait"])
+
 ManualStop ==
     /\ st \in {"OpenSent", "OpenConfirm", "Established"}
     /\ ToIdle(<<Notif(6, 0)>>)
@@ -246,6 +253,7 @@ Step == \/ \E p \in Pols : SetImport(p) \/ SetExport(p)
         \/ "HoldExpires" \in Stops /\ HoldExpires
         \/ "WriteFails" \in Stops /\ WriteFails
         \/ "ManualStop" \in Stops /\ ManualStop
+        \/ "Wait" \in Stops /\ Len(hist) >= 1 /\ hist[Len(hist)].a # "Wait" /\ Wait
 Next == Len(hist) < MaxDepth /\ Step
 (* simulation: a behaviour ends at MaxDepth or when no connection may be opened any more *)
 Finished == Len(hist) >= MaxDepth \/ (st = "Idle" /\ nsess >= MaxSessions)
